@@ -818,6 +818,11 @@ class SecureHomeKitConnection(HomeKitConnection):
                     self._pair_verify_failed_hosts.add(_normalize_host(self.connected_host))
                 self._drop_transport()
                 raise
+            except BaseException:
+                # The secure session could not be established, so this
+                # connection is of no use: close it instead of leaking it.
+                self._drop_transport()
+                raise
 
         # Secure session has been negotiated - switch protocol so all future messages are encrypted
         self.protocol = SecureHomeKitProtocol(
